@@ -55,7 +55,7 @@ Definition cfree (c : cstate) (x : key) : cstate :=
   mkC (fst (fl_desallocate (c_a c) (Some (addr c x)))) (c_data c) (c_cnt c).
 
 Lemma apply_alloc tab elsize c id k n a1 p d :
-  fl_allocate false tab (c_a c) (esize elsize k n) = (a1, Some p, d) ->
+  fl_allocate true tab (c_a c) (esize elsize k n) = (a1, Some p, d) ->
   apply_event tab elsize c (EAlloc id k n) = calloc a1 c id k p.
 Proof. destruct k; unfold apply_event, esize, calloc; intros ->; reflexivity. Qed.
 Lemma apply_free tab elsize c id k : apply_event tab elsize c (EFree id k) = cfree c (id, k).
@@ -118,7 +118,7 @@ Lemma TS511 : TS 511 = 8054880%Z.
 Proof. vm_compute. reflexivity. Qed.
 
 Lemma fl_alloc_ok a sz : (1 <= sz)%Z -> (sz <= TS 511)%Z ->
-  exists a1 p d idx, fl_allocate false tabsize a sz = (a1, Some p, d) /\ pop_or_malloc a idx = (a1, p).
+  exists a1 p d idx, fl_allocate true tabsize a sz = (a1, Some p, d) /\ pop_or_malloc a idx = (a1, p).
 Proof.
   intros H1 H2. unfold fl_allocate. cbn [andb].
   destruct (Z.eqb_spec sz 0); [lia|].
